@@ -214,6 +214,9 @@ def _corpus_part(ctx, mod, rec):
 def _run_part(a):
     modname, ctxd, idx = a
     try:
+        import velaenv
+
+        velaenv.init()  # repository imports must resolve to the tree under test before any check code runs
         mod = importlib.import_module(modname)
         ctx = Ctx(**ctxd)
         if idx == -1:
@@ -335,6 +338,9 @@ def main(argv=None):
         with open(args.replay) as f:
             body = json.load(f)
         case = body["case"] if isinstance(body, dict) and "case" in body else body
+        import velaenv
+
+        velaenv.init()
         if isinstance(case, dict) and case.get("kind") == "part":
             return main([prop, "--tier", case.get("tier", "quick"), "--seed", str(case.get("seed", 1)), "--only", case["part"]])
         try:
